@@ -144,10 +144,25 @@ func BuildSchemaValidationV31(schema *base.Schema, validationString string, fiel
 				schema.Enum = nil
 			} else {
 				schema.Enum = make([]*yaml.Node, 0, len(enumValues))
+				// Enum values must be of the schema's declared type, exactly as for 'oneof'
 				for _, v := range enumValues {
 					node := &yaml.Node{
 						Kind:  yaml.ScalarNode,
 						Value: v,
+					}
+					switch specType {
+					case "integer":
+						if _, err := strconv.ParseInt(v, 10, 64); err != nil {
+							log.Printf("Invalid integer value in enum: %s", v)
+							continue
+						}
+						node.Tag = "!!int"
+					case "number":
+						if _, err := strconv.ParseFloat(v, 64); err != nil {
+							log.Printf("Invalid number value in enum: %s", v)
+							continue
+						}
+						node.Tag = "!!float"
 					}
 					schema.Enum = append(schema.Enum, node)
 				}
